@@ -76,6 +76,8 @@ Section HistProofs.
       destruct (svia st f) as [st' r] eqn:R. cbn in *. subst r. f_equal.
       rewrite <- E1, <- E2, <- E3, <- E4. apply (IH st' (cached || true)); [exact I'| |exact H].
       rewrite orb_true_r. discriminate.
+    - (* SHeld: reads the current map, never the cached grid *)
+      f_equal. apply (IH st (cached || false)); [exact I| |exact H]. rewrite orb_false_r. exact N.
     - (* SEdit: allowed only while nothing is cached *)
       apply andb_prop in H. destruct H as [Hc H]. apply negb_true_iff in Hc. subst cached.
       destruct (N eq_refl) as (N1 & N2 & N3). f_equal.
